@@ -31,6 +31,14 @@ class STANAG4609_SEI(object):
         :rtype: bool
         """
 
+        # Nothing decoded from an earlier buffer may survive
+        self.unregdata = False
+        self.status = None
+        self.seconds = None
+        self.microseconds = None
+        self.nanoseconds = None
+        self.time = None
+        self.stanag = False
         (self.payloadtype, self.payloadsize) = struct.unpack(">BB", buf[0:2])
         if self.payloadtype == SEI_UNREG_DATA:
             self.unregdata = True
